@@ -5,6 +5,7 @@ package e2res
 import (
 	"context"
 	"fmt"
+	"math/rand/v2"
 	"net"
 	"runtime"
 	"sort"
@@ -108,6 +109,13 @@ func genC12(seed uint64, idx int, tier string) *Plan {
 		m := &simdoh.Msg{Flags: 0x8180 | uint16(rc&0xf), Question: []simdoh.Question{{Name: "a.test", Type: qt, Class: 1}}, Additional: []simdoh.RR{opt}}
 		body, _ := m.Encode(simdoh.EncodeOpts{})
 		return &Plan{Kind: "bytes", Seed: seed, Bytes: &BytesPlan{Body: body, Host: "a.test", QType: qt, CacheOff: core.Chance(r, 1, 2), Note: "OPT options"}}
+	}
+	if idx%16 == 10 {
+		// fan-out: a long backwards chain of "label, pointer" segments parked in
+		// the RDATA of a record of an opaque type, and as many records as fit
+		// whose owner is a pointer to the end of that chain. A decoder that lets
+		// names grow beyond 255 octets pays chain length x record count.
+		return &Plan{Kind: "bytes", Seed: seed, Bytes: &BytesPlan{Body: fanoutMessage(r), Host: "a.test", QType: simdoh.TypeA, CacheOff: true, Note: "pointer-chain fan-out"}}
 	}
 	z, inputs := genUniverse(r, 1)
 	p := &MutatePlan{Zone: z}
@@ -367,6 +375,43 @@ func advMessage(layout string, s []byte) (msg []byte, qtype uint16) {
 	m = append(m, s...)
 	m = append(m, l.post...)
 	return m, l.qtype
+}
+
+// fanoutMessage: see genC12.
+func fanoutMessage(r *rand.Rand) []byte {
+	segLabel := core.Pick(r, []int{1, 7, 30, 63})
+	chainLen := core.Pick(r, []int{300, 2000, 8000, 16000, 32000})
+	m := advHeader(1, 0)
+	m = append(m, advQuestion...)
+	m = append(m, 0, 1, 0, 1)
+	// record 1: owner = the question name, opaque type, RDATA = the chain
+	m = append(m, 0xC0, 0x0C, 0xFF, 0x01, 0, 1, 0, 0, 0, 60, 0, 0)
+	rdlenAt := len(m) - 2
+	start := len(m)
+	prev := -1
+	last := 0
+	for len(m)-start+segLabel+3 <= chainLen && len(m) < 0x3F00 {
+		last = len(m)
+		m = append(m, byte(segLabel))
+		for i := 0; i < segLabel; i++ {
+			m = append(m, byte('a'+i%26))
+		}
+		if prev < 0 {
+			m = append(m, 0)
+		} else {
+			m = append(m, 0xC0|byte(prev>>8), byte(prev))
+		}
+		prev = last
+	}
+	rdlen := len(m) - start
+	m[rdlenAt], m[rdlenAt+1] = byte(rdlen>>8), byte(rdlen)
+	n := 1
+	for len(m)+16 <= 65535 && n < 65535 {
+		m = append(m, 0xC0|byte(last>>8), byte(last), 0, 1, 0, 1, 0, 0, 0, 60, 0, 4, 10, 0, byte(n>>8), byte(n))
+		n++
+	}
+	m[6], m[7] = byte(n>>8), byte(n)
+	return m
 }
 
 // ---------------------------------------------------------------------------
@@ -1134,7 +1179,7 @@ func executeBytes(t *testing.T, prop string, pl *Plan) *core.Result {
 	counts["decode_"+v.status]++
 	direct := v.status
 	if v.status != "ok" && v.status != "err" {
-		res.Fail(prop, v.status, v.site, "%d-octet body %x: %s", len(p.Body), p.Body, v.detail)
+		res.Fail(prop, v.status, v.site, "%d-octet body %x...: %s", len(p.Body), p.Body[:min(len(p.Body), 48)], v.detail)
 	}
 	if ws := simdoh.TraceNaive(p.Body); ws.IntoLabel > 0 {
 		counts["pointer_into_label"]++
